@@ -240,7 +240,7 @@ def _table_source(pid, name, tier):
     return st, viols, info
 
 
-def _corpus_prop(pid, need, with_model=True, extra_assume=(), tables=(), minimize=False):
+def _corpus_prop(pid, need, with_model=True, extra_assume=(), tables=(), minimize=False, runapi=False):
     def fn(tier: str) -> PropResult:
         cs, v1 = _corpus_violations(pid, tier)
         mz = None
@@ -248,8 +248,14 @@ def _corpus_prop(pid, need, with_model=True, extra_assume=(), tables=(), minimiz
             from .mod_minimize import minimize_violations
             mz, vm = minimize_violations(pid, tier)
             v1 = v1 + vm
+        ra = None
+        vac_ra = []
+        if runapi:
+            from .mod_runapi import runapi_violations
+            ra, vr, vac_ra = runapi_violations(pid, tier)
+            v1 = v1 + vr
         ms, v2 = _model_violations(pid, tier) if with_model else (None, [])
-        vac = _need(cs["stats"], need)
+        vac = _need(cs["stats"], need) + vac_ra
         if ms and ms["untaken_actions"]:
             vac += ["model action never taken: " + a for a in ms["untaken_actions"]]
         if ms:
@@ -260,6 +266,11 @@ def _corpus_prop(pid, need, with_model=True, extra_assume=(), tables=(), minimiz
             cov["states"] += mz["states"]
             cov["transitions"] += mz["states"]
             cov["traces_validated_against_impl"] += mz["stats"]["runs"]
+        if ra is not None:
+            cov["run_api"] = {"module": "RunAPI.tla", "states": ra["states"], **ra["stats"], "sample": ra["sample"]}
+            cov["states"] += ra["states"]
+            cov["transitions"] += ra["states"]
+            cov["traces_validated_against_impl"] += ra["stats"]["runs"]
         v3 = []
         for t in tables:
             st, vt, info = _table_source(pid, t, tier)
@@ -278,11 +289,11 @@ _corpus_prop("C01", ["objective_calls", "generations_recorded", "rounds_with_spr
              tables=("bounds",))
 _corpus_prop("C02", ["generations_recorded", "engine:LOCAL", "engine:CMA", "engine:DE", "snapshots_after_refusal"],
              with_model=False, minimize=True)
-_corpus_prop("C03", ["ev:gsc", "engine:LOCAL", "gsc:SingularEvalLimit", "gsc:WeightedEvalLimit"], minimize=True)
+_corpus_prop("C03", ["ev:gsc", "engine:LOCAL", "gsc:SingularEvalLimit", "gsc:WeightedEvalLimit"], minimize=True, runapi=True)
 _corpus_prop("C04", ["generations_recorded", "maximize", "minimize"], with_model=False, minimize=True)
 _corpus_prop("C05", ["gsc_first_true_at:run", "gsc_first_true_at:step", "gsc_first_true_at:deme",
                      "gsc_true_with_demes_still_queued", "gsc:MetaepochLimit", "gsc:SingularEvalLimit",
-                     "gsc:WeightedEvalLimit", "gsc:RootStopped", "gsc:AllStopped", "gsc:NoActiveNonroot", "gsc:Scripted"], minimize=True)
+                     "gsc:WeightedEvalLimit", "gsc:RootStopped", "gsc:AllStopped", "gsc:NoActiveNonroot", "gsc:Scripted"], minimize=True, runapi=True)
 _corpus_prop("C06", ["lsc_true", "ev:lsc", "rounds_with_sprouts", "hibernation_on", "hibernation_off"])
 _corpus_prop("C07", ["rounds_with_sprouts", "rounds_with_several_parents", "levels=3", "levels=1", "custom_deme_class"])
 _c08_base = _corpus_prop("C08", ["rounds_with_sprouts", "rounds_where_filters_removed", "rounds_with_several_parents", "lsc_true"],
